@@ -659,7 +659,7 @@ theorem close_core {g : Cfg} (ok : g.OK) {c : Conn} {r r2 : AReq} {cs : CloseSt}
             (.writing (run .header r2.sp.raw g.mc).out (run .header r2.sp.raw g.mc).st.isFinal)) t') r2.sp.raw :=
         ⟨by show r2.sp.raw ++ t'.input ++ serAll g.recs = g.W'
             rw [hrawin, Cfg.W'],
-          hstop, hb.step hts, hremle, Or.inr ⟨_, rfl, by show t'.wlog ++ _ = _; rw [hlog']⟩⟩
+          hstop, hb.step hts, hremle, Or.inr ⟨_, rfl, by show t'.wlog ++ _ = _; rw [hlog'], [], rfl⟩⟩
       have hidle := idle_poll ok hO hst hk (hev.step hts) ((fun s hs => hts.mem_events (hre s hs))) hsc hm
       have := Res.of_steps (Steps.step hstep' (Steps.one hstep2')) (mkC_link c _ hts) hidle
       refine this.mono ?_
@@ -917,6 +917,47 @@ theorem first_poll {g : Cfg} (ok : g.OK) {e1 : Bytes} {e : Run.Env} (hlen : e1.l
         { ops := fscript g.data g.st, propagate := true } e := ⟨rfl, rfl, rfl, [], hrst (Or.inr hr3)⟩
     exact rd_poll ok (Or.inr ⟨hr3, Or.inl hrd⟩) hb hfu
 
+/-- **The poll in which the preamble's last `write_all` completes**: the handler starts and is polled. -/
+theorem final_poll {g : Cfg} (ok : g.OK) {c1 : Conn} {F1 rest : Bytes} {t' : Transport}
+    (hph : c1.phase = .parseReq (track g.cap g.mc F1) (.writing rest true))
+    (hf : (run .header F1 g.mc).st.isFinal = true)
+    (hw : F1 ++ c1.env.tr.input ++ [] = g.W) (hstop1 : c1.stop = false) (hben1 : Ben c1.env.tr)
+    (hrem1 : (run .header F1 g.mc).rem.length ≤ g.cap)
+    (hwa : writeAllLoop (rest.length + 1) rest c1.env.tr = ([], t', .ready))
+    (hlog : t'.wlog = g.L0 ++ (run .header F1 g.mc).out) (hts' : TStep c1.env.tr t')
+    (hinp' : t'.input = c1.env.tr.input)
+    (hsc1 : c1.scripts = (g.hscript, true) :: g.more) (hmx1 : c1.env.mutex = none)
+    (hev0 : hsCount c1.env.tr.events = g.hs0) :
+    Res g (2 * c1.env.tr.input.length + 11) c1 := by
+  obtain ⟨e1, _, hwire, hL1, he1len, hstep'⟩ :=
+    handler_start ok hph (by simpa using hw) hstop1 hrem1 hf hwa hlog hsc1
+  have hwsE : WStep c1.env.tr (t'.ev (hsEvent g.p.request)) :=
+    hts'.w.trans ⟨List.suffix_refl _, List.suffix_refl _, rfl, rfl, Or.inl rfl, Nat.le_refl _,
+      fun s hs => List.mem_append_left _ hs⟩
+  have hev1 : Ev1 g (t'.ev (hsEvent g.p.request)) := by
+    have h0 : hsCount t'.events = g.hs0 := hts'.hs.trans hev0
+    constructor
+    · show hsCount (t'.events ++ [hsEvent g.p.request]) = g.hs0 + 1
+      rw [hsCount_append, h0, hsCount_single_true (isHS_hsEvent _)]
+    · show hsEvent g.p.request ∈ t'.events ++ [hsEvent g.p.request]
+      simp
+  have hben2 : Ben (t'.ev (hsEvent g.p.request)) := hben1.wstep hwsE
+  have hfuelH : 1000 + 4 * t'.input.length ≤
+      handlerFuel ((⟨t', c1.env.mutex, c1.env.segs⟩ : Run.Env).ev (hsEvent g.p.request))
+        (AReq.new (Str.Parser.fromParser g.cap g.p.request e1 g.mc)) :=
+    handlerFuel_ge ((⟨t', c1.env.mutex, c1.env.segs⟩ : Run.Env).ev (hsEvent g.p.request)) _
+  have hcore := handler_core ok
+    (c := ⟨.handler (AReq.new (Str.Parser.fromParser g.cap g.p.request e1 g.mc))
+            { ops := g.hscript, propagate := true },
+        (⟨t', c1.env.mutex, c1.env.segs⟩ : Run.Env).ev (hsEvent g.p.request), g.more, false⟩) rfl
+    (first_poll ok (e := (⟨t', c1.env.mutex, c1.env.segs⟩ : Run.Env).ev (hsEvent g.p.request)) he1len
+      (by show e1 ++ t'.input = g.X; rw [hinp']; exact hwire) hL1 hmx1 hben2 hfuelH) hben2 rfl hev1 rfl
+  have hres := Res.of_steps (Steps.one hstep') ⟨hwsE, rfl, hstop1.symm ▸ rfl⟩ hcore
+  refine hres.mono ?_
+  have h2 := congrArg List.length hinp'
+  show 1 + (2 * t'.input.length + 10) ≤ _
+  omega
+
 theorem parse_poll {g : Cfg} (ok : g.OK) {c : Conn} {F : Bytes}
     (hst : PSt g.cap g.mc g.W g.L0 [] c F) (hsc : c.scripts = (g.hscript, true) :: g.more)
     (hm : c.env.mutex = none) (hev : hsCount c.env.tr.events = g.hs0) :
@@ -930,36 +971,10 @@ theorem parse_poll {g : Cfg} (ok : g.OK) {c : Conn} {F : Bytes}
     exact .pend (.parse h2 (h3.scripts.trans (hfr.scripts.trans hsc)) (h3.mutex.trans (hfr.mutex.trans hm))
       (hts.hs.trans hev)) h4 (by have := hfr.ts.ans_le; omega)
   · -- the preamble is complete and its replies are written: the handler starts
-    have hsc1 : c1.scripts = (g.hscript, true) :: g.more := hfr.scripts.trans hsc
-    obtain ⟨e1, _, hwire, hL1, he1len, hstep'⟩ :=
-      handler_start ok hph (by simpa using hw) hstop1 hrem1 hf hwa hlog hsc1
-    have hmx1 : c1.env.mutex = none := hfr.mutex.trans hm
-    have hwsE : WStep c1.env.tr (t'.ev (hsEvent g.p.request)) :=
-      hts'.w.trans ⟨List.suffix_refl _, List.suffix_refl _, rfl, rfl, Or.inl rfl, Nat.le_refl _,
-        fun s hs => List.mem_append_left _ hs⟩
-    have hev1 : Ev1 g (t'.ev (hsEvent g.p.request)) := by
-      have h0 : hsCount t'.events = g.hs0 := (hfr.ts.trans hts').hs.trans hev
-      constructor
-      · show hsCount (t'.events ++ [hsEvent g.p.request]) = g.hs0 + 1
-        rw [hsCount_append, h0, hsCount_single_true (isHS_hsEvent _)]
-      · show hsEvent g.p.request ∈ t'.events ++ [hsEvent g.p.request]
-        simp
-    have hben2 : Ben (t'.ev (hsEvent g.p.request)) := hben1.wstep hwsE
-    have hfuelH : 1000 + 4 * t'.input.length ≤
-        handlerFuel ((⟨t', c1.env.mutex, c1.env.segs⟩ : Run.Env).ev (hsEvent g.p.request))
-          (AReq.new (Str.Parser.fromParser g.cap g.p.request e1 g.mc)) :=
-      handlerFuel_ge ((⟨t', c1.env.mutex, c1.env.segs⟩ : Run.Env).ev (hsEvent g.p.request)) _
-    have hcore := handler_core ok
-      (c := ⟨.handler (AReq.new (Str.Parser.fromParser g.cap g.p.request e1 g.mc))
-              { ops := g.hscript, propagate := true },
-          (⟨t', c1.env.mutex, c1.env.segs⟩ : Run.Env).ev (hsEvent g.p.request), g.more, false⟩) rfl
-      (first_poll ok (e := (⟨t', c1.env.mutex, c1.env.segs⟩ : Run.Env).ev (hsEvent g.p.request)) he1len
-        (by show e1 ++ t'.input = g.X; rw [hinp']; exact hwire) hL1 hmx1 hben2 hfuelH) hben2 rfl hev1 rfl
-    have hres := Res.of_steps (hs.trans (Steps.one hstep')) (hfr.link.trans ⟨hwsE, rfl, hstop1.symm ▸ rfl⟩) hcore
-    refine hres.mono ?_
+    have hfp := final_poll ok hph hf hw hstop1 hben1 hrem1 hwa hlog hts' hinp' (hfr.scripts.trans hsc)
+      (hfr.mutex.trans hm) (hfr.ts.hs.trans hev)
+    refine (Res.of_steps hs hfr.link hfp).mono ?_
     have h1 := hfr.ts.tle.input_len
-    have h2 := congrArg List.length hinp'
-    show n + 1 + (2 * t'.input.length + 10) ≤ _
     omega
   · exfalso
     have hF1 : F1 = g.W := by
@@ -994,7 +1009,7 @@ theorem start_poll {g : Cfg} (ok : g.OK) {c : Conn} {raw : Bytes}
       (.writing (run .header raw g.mc).out (run .header raw g.mc).st.isFinal)) c.env.tr) raw :=
     ⟨by show raw ++ c.env.tr.input ++ [] = g.W
         rw [List.append_nil]; exact hwire,
-      hstop, hb, hremle, Or.inr ⟨_, rfl, by show c.env.tr.wlog ++ _ = _; rw [hlog]⟩⟩
+      hstop, hb, hremle, Or.inr ⟨_, rfl, by show c.env.tr.wlog ++ _ = _; rw [hlog], [], rfl⟩⟩
   have hres := parse_poll ok hst hsc hm hev
   have := Res.of_steps (Steps.one hstep') (mkC_link c _ (.refl _)) hres
   exact this.mono (by show 1 + (4 * c.env.tr.input.length + 16) ≤ _; omega)
